@@ -7,7 +7,7 @@ git checkout -q -- include src 2>/dev/null
 git checkout -q --detach main || exit 2
 git apply _seed/patch.diff || { echo "SEEDRUN $ID: patch does not apply to main"; exit 2; }
 for c in "$@"; do
-  VERIF_REPO=$D /verif/bin/check $c --tier ${TIER:-quick} > /tmp/seed/run_${ID}_$c.log 2>&1; rc=$?
+  VERIF_EVID=/tmp/seed/evid_$ID VERIF_REPLAYS=/tmp/seed/evid_$ID VERIF_REPO=$D /verif/bin/check $c --tier ${TIER:-quick} > /tmp/seed/run_${ID}_$c.log 2>&1; rc=$?
   echo "SEEDRUN $ID $c rc=$rc $(grep -c '^  violation' /tmp/seed/run_${ID}_$c.log) violations; $(grep -o '"class": "[^"]*"' /tmp/seed/run_${ID}_$c.log | sort | uniq -c | sort -rn | head -4 | tr '\n' ' ')"
 done
 git checkout -q -- include src
